@@ -8,6 +8,7 @@ import (
 	"fmt"
 	gio "io"
 
+	"github.com/nspcc-dev/dbft"
 	"github.com/nspcc-dev/neo-go/pkg/config/netmode"
 	"github.com/nspcc-dev/neo-go/pkg/consensus"
 	"github.com/nspcc-dev/neo-go/pkg/core/block"
@@ -16,6 +17,7 @@ import (
 	"github.com/nspcc-dev/neo-go/pkg/core/state"
 	"github.com/nspcc-dev/neo-go/pkg/core/storage"
 	"github.com/nspcc-dev/neo-go/pkg/core/transaction"
+	"github.com/nspcc-dev/neo-go/pkg/crypto/keys"
 	"github.com/nspcc-dev/neo-go/pkg/io"
 	"github.com/nspcc-dev/neo-go/pkg/network"
 	"github.com/nspcc-dev/neo-go/pkg/network/payload"
@@ -281,8 +283,32 @@ func txExtra(v any, e []byte, lab func(string)) error {
 	if len(tx.Attributes) > 0 {
 		lab("tx-with-attrs")
 	}
+	// An object that held another transaction before (decoders fill the receiver): hash and size are those of the
+	// bytes decoded last.
+	reused := new(transaction.Transaction)
+	r := io.NewBinReaderFromBuf(smallTxBytes)
+	reused.DecodeBinary(r)
+	if r.Err != nil {
+		return fmt.Errorf("harness: the small transaction does not decode: %v", r.Err)
+	}
+	_, _ = reused.Hash(), reused.Size()
+	r = io.NewBinReaderFromBuf(e)
+	reused.DecodeBinary(r)
+	if r.Err != nil {
+		return fmt.Errorf("decoding into a used Transaction object fails: %v", r.Err)
+	}
+	if got := txIdent(reused); got != want {
+		return &keyedError{key: "tx-reused-object-stale-size", msg: fmt.Sprintf("a Transaction object that held a %d-byte transaction before and now decoded this %d-byte one reports %s, a fresh object reports %s", len(smallTxBytes), len(e), got, want)}
+	}
 	return nil
 }
+
+var smallTxBytes = func() []byte {
+	tx := transaction.New([]byte{0x40}, 0)
+	tx.Signers = []transaction.Signer{{Account: util.Uint160{1}}}
+	tx.Scripts = []transaction.Witness{{InvocationScript: []byte{}, VerificationScript: []byte{}}}
+	return mustEnc(tx)
+}()
 
 func mustEnc(v io.Serializable) []byte {
 	w := io.NewBufBinWriter()
@@ -740,8 +766,70 @@ func addConsensusKind(sr bool) {
 		},
 		// No identity law: a consensus payload is identified by the hash of the Extensible it travels in, i.e. by
 		// the received Data bytes, which the node never re-encodes.
+		extra: func(v any, e []byte, lab func(string)) error {
+			p, _, err := dec(e)
+			if err != nil {
+				return nil
+			}
+			return recoveryGetters(p, lab)
+		},
 	})
 }
+
+// recoveryGetters: what dBFT does with a decoded RecoveryMessage right away (dbft.go onRecoveryMessage calls the four
+// getters with the validator list, without any check of its own). The compact entries carry a validator index taken
+// from the wire: whatever it is, the getters return payloads or nothing - "decoders never panic".
+func recoveryGetters(p *consensus.Payload, lab func(string)) (err error) {
+	type getters interface {
+		GetPrepareRequest(dbft.ConsensusPayload[util.Uint256], []dbft.PublicKey, uint16) dbft.ConsensusPayload[util.Uint256]
+		GetPrepareResponses(dbft.ConsensusPayload[util.Uint256], []dbft.PublicKey) []dbft.ConsensusPayload[util.Uint256]
+		GetChangeViews(dbft.ConsensusPayload[util.Uint256], []dbft.PublicKey) []dbft.ConsensusPayload[util.Uint256]
+		GetCommits(dbft.ConsensusPayload[util.Uint256], []dbft.PublicKey) []dbft.ConsensusPayload[util.Uint256]
+	}
+	g, ok := p.Payload().(getters)
+	if !ok {
+		return nil
+	}
+	for _, n := range []int{4, 7} {
+		vals := make([]dbft.PublicKey, n)
+		for i := range vals {
+			vals[i] = recoveryValidators[i]
+		}
+		what := ""
+		func() {
+			defer func() {
+				if r := recover(); r != nil {
+					err = &keyedError{key: "recovery-validator-index", msg: fmt.Sprintf("RecoveryMessage.%s with %d validators panics: %v (dBFT calls it on every received recovery message)", what, n, r)}
+				}
+			}()
+			what = "GetPrepareRequest"
+			_ = g.GetPrepareRequest(p, vals, uint16(p.ValidatorIndex())%uint16(n))
+			what = "GetPrepareResponses"
+			_ = g.GetPrepareResponses(p, vals)
+			what = "GetChangeViews"
+			_ = g.GetChangeViews(p, vals)
+			what = "GetCommits"
+			_ = g.GetCommits(p, vals)
+		}()
+		if err != nil {
+			return err
+		}
+	}
+	lab("recovery-getters")
+	return nil
+}
+
+var recoveryValidators = func() []*keys.PublicKey {
+	var out []*keys.PublicKey
+	for i := 0; i < 7; i++ {
+		k, err := keys.NewPrivateKeyFromBytes(append(make([]byte, 31), byte(i+1)))
+		if err != nil {
+			panic(err)
+		}
+		out = append(out, k.PublicKey())
+	}
+	return out
+}()
 
 // consDump renders a decoded consensus payload through its exported accessors.
 func consDump(p *consensus.Payload) string {
